@@ -17,7 +17,7 @@ FIELD_NAMES = ["a", "b", "c", "value", "items", "key", "intersection", "data", "
 
 LOOKALIKE_STRS = [
     "", "a", "ab", "1", "1.0", "null", "None", "true", "True", "[1]", "{}", "1,2", "2020-01-01",
-    "12:00", "PT1S", "0", "-1", "1e3", "NaN", '"q"', "{\"a\": 1}", "(1, 2)", " ", "x y",
+    "12:00", "9:30", "1:2:3", "09:30:5", "PT1S", "0", "-1", "1e3", "NaN", '"q"', "{\"a\": 1}", "(1, 2)", " ", "x y",
     "éè", "中文", "\x00", "tab\there", "line\nbreak", "'", "\\", "1/2",
     "0x10", "1_000", "+5", "Infinity", "P1D", "00:00:00+05:30", "[", "nul", "12345678-1234-5678-1234-567812345678",
     # text that begins with U+FEFF (EF BB BF on the wire): an ordinary character as far as the library is concerned
